@@ -1,6 +1,6 @@
 ------------------------------ MODULE SvsMC ------------------------------
 (* Model-checking front-end of Svs (C18): the finite alphabets of received packets.
-   cfg:  Packets <- PacketsFull | PacketsPlain | PacketsReplay                            *)
+   cfg:  Packets <- PacketsFull | PacketsPlain | PacketsReplay | PacketsAgain                           *)
 EXTENDS Svs
 
 Ents(f, D, ord) ==
@@ -19,10 +19,25 @@ NoSeqOver(S) == UNION { UNION { { SV(Ents(f, D, NodeOrder)), SV(Ents(f, D, Rev(N
 NoIdOver(S) == UNION { { SV(<<[id |-> ix[1], seq |-> ix[2]]>> \o Ents(f, D, NodeOrder)) : f \in [D -> S] } :
                        D \in { E \in SUBSET Nodes : Cardinality(E) <= 1 },
                        ix \in {<<NoId, NoSeq>>, <<NoId, MaxSeq>>, <<RootId, MaxSeq>>} }
+\* a vector that names one node twice, with two different sequence numbers (both orders); between the two
+\* entries at most one entry of another node. DupOver: every pair, any other node, any value;
+\* DupSome: the pair is 0 and MaxSeq, the other node is the next one in NodeOrder and has MaxSeq
+NextNode(n) == LET i == CHOOSE x \in 1..Len(NodeOrder) : NodeOrder[x] = n IN NodeOrder[(i % Len(NodeOrder)) + 1]
+DupPk(n, s1, s2, mid) == SV(<<[id |-> n, seq |-> s1]>> \o mid \o <<[id |-> n, seq |-> s2]>>)
+DupOver(S) == UNION { { DupPk(t[1], t[2], t[3], <<>>) } \cup
+                      { DupPk(t[1], t[2], t[3], <<[id |-> m, seq |-> s]>>) : m \in Nodes \ {t[1]}, s \in S } :
+                      t \in { u \in Nodes \X S \X S : u[2] # u[3] } }
+DupSome == UNION { { DupPk(t[1], t[2], t[3], <<>>) } \cup
+                   (IF Len(NodeOrder) > 1 THEN { DupPk(t[1], t[2], t[3], <<[id |-> NextNode(t[1]), seq |-> MaxSeq]>>) } ELSE {}) :
+                   t \in { u \in Nodes \X {0, MaxSeq} \X {0, MaxSeq} : u[2] # u[3] } }
 Malformed == { [k |-> kk, es |-> <<>>] : kk \in {"empty", "garbage", "nowrapper", "badname", "unsigned", "seqlen0", "seqlen3"} }
 
-PacketsFull == PlainOver(0..MaxSeq) \cup NoSeqOver(0..MaxSeq) \cup NoIdOver(0..MaxSeq) \cup Malformed
+PacketsFull == PlainOver(0..MaxSeq) \cup NoSeqOver(0..MaxSeq) \cup NoIdOver(0..MaxSeq) \cup DupOver(0..MaxSeq) \cup Malformed
 PacketsPlain == PlainOver(0..MaxSeq) \cup Malformed
 \* smaller alphabet for the replay graph: plain vectors, and damaged ones over {1, MaxSeq}
-PacketsReplay == PlainOver(0..MaxSeq) \cup NoSeqOver({MaxSeq}) \cup NoIdOver({MaxSeq}) \cup Malformed
+PacketsReplay == PlainOver(0..MaxSeq) \cup NoSeqOver({MaxSeq}) \cup NoIdOver({MaxSeq}) \cup DupSome \cup Malformed
+\* for the runs with Remember = TRUE (the state space is multiplied by the square of the decodable packets)
+PacketsAgain == PlainOver(0..MaxSeq)
+\* the alphabet without duplicates (spec-level sensitivity runs for the named deviations)
+PacketsNoDup == PlainOver(0..MaxSeq) \cup NoSeqOver({MaxSeq}) \cup NoIdOver({MaxSeq}) \cup Malformed
 =============================================================================
